@@ -75,7 +75,12 @@ def one(rep, rng, j):
         b2 = Built(spec, rng=random.Random(rng.randrange(1 << 30)), fresh_prob=rng.choice([0, 0.5, 1.0]))
         req_names2 = rng.sample(names, rng.randrange(1, len(names) + 1))
         req2 = b2.requested(req_names2)
-        lab2 = labtech.Lab(storage=make_storage(skind, store), runner_backend=B2, max_workers=rng.choice([1, 2, None]),
+        # in half of the cases every later Lab of this process is given ONE Storage object (read-path memos keyed by
+        # the storage instance then see the entries being replaced)
+        shared_storage = make_storage(skind, store) if rng.random() < 0.5 else None
+        if shared_storage is not None:
+            rep.count('cases_with_one_storage_object_for_all_labs')
+        lab2 = labtech.Lab(storage=(shared_storage or make_storage(skind, store)), runner_backend=B2, max_workers=rng.choice([1, 2, None]),
                            context={'shared': 'different-context'})
         try:
             res2 = lab2.run_tasks(req2, disable_progress=True, disable_top=True)
@@ -146,7 +151,7 @@ def one(rep, rng, j):
             B4, B5 = rng.choice(['serial', 'fork', 'spawn']), rng.choice(['serial', 'fork', 'spawn'])
             engine.write_plan(ctl, 3, shapes)
             b4 = Built(spec)
-            lab4 = labtech.Lab(storage=make_storage(skind, store), runner_backend=B4, max_workers=2, context=ctx)
+            lab4 = labtech.Lab(storage=(shared_storage or make_storage(skind, store)), runner_backend=B4, max_workers=2, context=ctx)
             try:
                 res4 = lab4.run_tasks([b4.inst(n) for n in names], bust_cache=True, disable_progress=True, disable_top=True)
             except BaseException as ex:   # noqa
@@ -157,7 +162,7 @@ def one(rep, rng, j):
                 meta4 = {n: b4.canon[n].result_meta for n in names}
                 engine.write_plan(ctl, 4, shapes)
                 pre = len(events.read_events(ctl))
-                lab5 = labtech.Lab(storage=make_storage(skind, store), runner_backend=B5, max_workers=2, context=ctx)
+                lab5 = labtech.Lab(storage=(shared_storage or make_storage(skind, store)), runner_backend=B5, max_workers=2, context=ctx)
                 old = [t for t in req1 if rng.random() < 0.7] or req1[:1]
                 try:
                     res5 = lab5.run_tasks(old, disable_progress=True, disable_top=True)
